@@ -447,7 +447,8 @@ class Lib:
         def fn(idx):
             j = idx[1]
             if not is_conc(j):
-                raise EngineError("symbolic column index into column_stack")
+                # symbolic column: selection among the (concretely many) columns
+                return A._pick([norm(fn((idx[0], jj))) for jj in range(width)], j)
             off = 0
             for r, w, nd in parts:
                 if j < off + w:
@@ -804,6 +805,10 @@ class Lib:
     def list_method(self, interp, ref, meth, args, kwargs):
         c = ref.content
         if meth == "append":
+            if isinstance(c, A.SeqVal) and not sv.is_scalar(norm(args[0])):
+                from .loops import AppendedSeq
+                ref.set_content(AppendedSeq(c.fn, c.length, args[0]))
+                return None
             if isinstance(c, A.SeqVal):
                 n, fn = c.length, c.fn
                 v = args[0]
